@@ -840,4 +840,45 @@ def coating_media(ctx):
     return res
 
 
-RULES = [coating_media, no_stale, pol_frames, fresnel, rotation_law, retarder, projectors, aoi]
+def pol_local_frame(ctx):
+    """the accumulated polarisation matrix lives in one frame.  Surfaces are
+    traced in their own frame: localize rotates positions and direction
+    cosines (RealRays.rotate_x/y/z), the s-p-k frames of PolarizedRays.update
+    are built from those local direction cosines, and globalize rotates the
+    ray back - but nothing rotates the 3x3 matrices."""
+    P = ctx.P
+    res = Result('POL-LOCAL-FRAME', 'the polarisation matrix is expressed in '
+                 'the frame of the direction cosines it is built from, also '
+                 'for tilted surfaces')
+    rot = [P.func('RealRays.rotate_' + a) for a in 'xyz']
+    pr = P.classes['PolarizedRays']
+    touches_p = any(isinstance(x, ast.Attribute) and x.attr == 'p' and
+                    unparse(x.value) == 'self' for f in rot
+                    for x in ast.walk(f.node))
+    overrides = any(('rotate_' + a) in pr.methods for a in 'xyz')
+    tr = P.func('Surface._trace_real')
+    for f in rot + [tr]:
+        res.saw(f)
+    seq = [c.func.attr for c in ast.walk(tr.node) if isinstance(c, ast.Call)
+           and isinstance(c.func, ast.Attribute) and c.func.attr in (
+               'localize', '_interact', 'globalize')]
+    between = seq[:3] == ['localize', '_interact', 'globalize'] or (
+        'localize' in seq and '_interact' in seq and 'globalize' in seq and
+        seq.index('localize') < seq.index('_interact') <
+        seq.index('globalize'))
+    if between and not (touches_p or overrides):
+        res.fail(ctx.finding(
+            'POL-LOCAL-FRAME', tr, tr.node,
+            'PolarizedRays.update is called between localize and globalize, '
+            'i.e. with direction cosines in the tilted frame of the surface, '
+            'while the accumulated matrix is never rotated (rotate_x/y/z do '
+            'not touch it): after a tilted surface the propagated field is '
+            'no longer transverse to the ray (|E.k| = 8e-3 for rx = 0.2) and '
+            'Fresnel intensities are wrong',
+            construct='polarisation matrix not rotated with the ray frame'))
+    else:
+        res.ok('polarisation matrix follows the frame changes')
+    return res
+
+
+RULES = [pol_local_frame, coating_media, no_stale, pol_frames, fresnel, rotation_law, retarder, projectors, aoi]
